@@ -187,6 +187,14 @@ func runC17(p *Prog, r *Report) {
 					}
 				}
 			}
+			if rule == "C17.R2" && c17IndexShares(c.A.Role) {
+				ukey := "the instances of " + shortRole(c.A.Role) + " share a container by index ranges computed from their own argument"
+				if !unkRoles[ukey] {
+					unkRoles[ukey] = true
+					r.Unk("C17.R2", ukey, p.InstrPos(c.A.Role.Go), "each goroutine of this family walks elements of a shared container at indices derived from an integer it was started with (a worker that takes a share of the channels): whether the shares are disjoint, and cover every element, depends on the arithmetic of the bounds and is not decided (field "+k.String()+" and others)")
+				}
+				continue
+			}
 			if jr != nil {
 				ukey := "goroutines started in " + FuncName(jr.In) + " (" + shortRole(jr) + ") are collected by a caller of that function"
 				if !seen[ukey] {
@@ -1002,4 +1010,62 @@ func joinElsewhere(rs ...*Role) *Role {
 		}
 	}
 	return nil
+}
+
+// c17IndexShares: the goroutines of the family are started with an integer that differs per
+// instance (derived from the loop variable of the loop that starts them) and index containers
+// with values computed from it.
+func c17IndexShares(r *Role) bool {
+	if r == nil || r.Go == nil || !r.Multi {
+		return false
+	}
+	var cl *ssa.Function
+	if mc, ok := r.Go.Call.Value.(*ssa.MakeClosure); ok {
+		cl, _ = mc.Fn.(*ssa.Function)
+	} else {
+		cl = r.Go.Call.StaticCallee()
+	}
+	if cl == nil || len(cl.Params) != len(r.Go.Call.Args) {
+		return false
+	}
+	induction := func(v ssa.Value) bool {
+		for i := 0; i < 5; i++ {
+			switch x := v.(type) {
+			case *ssa.Phi:
+				return true
+			case *ssa.BinOp:
+				if _, isPhi := x.X.(*ssa.Phi); isPhi {
+					return true
+				}
+				if _, isPhi := x.Y.(*ssa.Phi); isPhi {
+					return true
+				}
+				v = x.X
+			case *ssa.Convert:
+				v = x.X
+			default:
+				return false
+			}
+		}
+		return false
+	}
+	for i, q := range cl.Params {
+		if !isIntLike(q.Type()) || !induction(r.Go.Call.Args[i]) {
+			continue
+		}
+		uses := false
+		Instrs(cl, func(in ssa.Instruction) {
+			ia, ok := in.(*ssa.IndexAddr)
+			if !ok || uses {
+				return
+			}
+			if dependsOn(ia.Index, q) {
+				uses = true
+			}
+		})
+		if uses {
+			return true
+		}
+	}
+	return false
 }
